@@ -100,7 +100,7 @@ Lemma validate_ok_inv : forall T zq x64 virt inst ops,
   vi_id inst < vt_count T /\
   exists iflags avx sidx scnt st rest,
     nth (N.to_nat (vi_id inst)) (vt_inst T) (0, 0, 0, 0) = (iflags, avx, sidx, scnt) /\
-    xlat_all T x64 virt avx ops {| xs_sigs := []; xs_flags := 0; xs_regs := 0; xs_mem := None |} = inr (st, rest) /\
+    xlat_all T x64 virt avx ops init_xstate = inr (st, rest) /\
     forallb is_none rest = true /\
     (x64 = false -> test (xs_flags st) OF_RegGpq = false) /\
     (scnt = 0 \/ exists s, In s (inst_sigs T sidx scnt) /\ match_sig T zq (mode_bit x64) (xs_sigs st) s = Some false).
@@ -122,9 +122,9 @@ Proof.
   match type of H with (if negb (?e =? E_Ok) then _ else _) = _ => destruct (negb (e =? E_Ok)) eqn:EV end.
   { apply negb_true_iff, N.eqb_neq in EV. congruence. }
   exists iflags, avx, sidx, scnt, st, rest. split; [reflexivity|]. split; [exact XL|]. split; [exact GAP|]. split.
-  - intros ->. cbn [negb] in MD. apply negb_false_iff, N.eqb_eq in MD.
+  - intros ->. unfold mode_stage in MD. cbn [negb] in MD. apply negb_false_iff, N.eqb_eq in MD.
     destruct (test (xs_flags st) OF_RegGpq); [cdisc MD|reflexivity].
-  - apply negb_false_iff, N.eqb_eq in SG.
+  - apply negb_false_iff, N.eqb_eq in SG. unfold sig_stage in SG.
     destruct (scnt =? 0) eqn:S0; [left; apply N.eqb_eq; exact S0|right].
     destruct x64; apply match_sigs_ok in SG; exact SG.
 Qed.
@@ -188,7 +188,7 @@ Lemma validate_accept_has_signature : forall T zq x64 virt inst ops,
   validate T zq x64 virt inst ops = E_Ok ->
   exists iflags avx sidx scnt st rest,
     nth (N.to_nat (vi_id inst)) (vt_inst T) (0, 0, 0, 0) = (iflags, avx, sidx, scnt) /\
-    xlat_all T x64 virt avx ops {| xs_sigs := []; xs_flags := 0; xs_regs := 0; xs_mem := None |} = inr (st, rest) /\
+    xlat_all T x64 virt avx ops init_xstate = inr (st, rest) /\
     forallb is_none rest = true /\
     (scnt = 0 \/ exists s, In s (inst_sigs T sidx scnt) /\ test (is_mode s) (mode_bit x64) = true /\
                             match_sig T zq (mode_bit x64) (xs_sigs st) s = Some false).
@@ -423,4 +423,157 @@ Proof.
   pose proof (forallb_In _ _ _ H iid ltac:(apply in_nseq_v; lia)) as Q. cbv beta in Q. rewrite ROW in Q. cbv zeta in Q.
   pose proof (forallbi_nth _ _ _ _ Q j s E) as Q2. cbv beta in Q2. replace (0 + N.of_nat j) with (N.of_nat j) in Q2 by lia.
   apply orb_true_iff in Q2. destruct Q2 as [Q2|Q2]; [left; exact Q2|right; apply sig_origin_filter; exact Q2].
+Qed.
+
+(* ------------------------------------------------------------------ history of attach / detach is irrelevant: only the holder attached now counts *)
+Lemma emitter_mode_last : forall h m, emitter_mode (h ++ [EvAttach m]) = Some m.
+Proof. intros. unfold emitter_mode. rewrite fold_left_app. reflexivity. Qed.
+
+Lemma emit_history_irrelevant : forall (S B : Type) T (encode : bool -> S -> vinst -> list operand -> S * (N * B)) fail von h m s inst ops,
+  emit_with_history T encode fail von (h ++ [EvAttach m]) s inst ops = emit_with_history T encode fail von [EvAttach m] s inst ops.
+Proof. intros. unfold emit_with_history. rewrite emitter_mode_last. reflexivity. Qed.
+
+(* ------------------------------------------------------------------ converse, bit level *)
+Lemma kinds_origin : forall T rows exc, kinds_have_origin T rows exc = true ->
+  forall iid iflags avx sidx scnt, 1 <= iid < vt_count T ->
+  nth (N.to_nat iid) (vt_inst T) (0, 0, 0, 0) = (iflags, avx, sidx, scnt) ->
+  forall j s, nth_error (inst_sigs T sidx scnt) j = Some s ->
+  forall q ref, nth_error (sig_refs T s) q = Some ref ->
+  forall p, p < 48 -> N.testbit (fst ref) p = true -> N.testbit OF_OpMask p = true ->
+  N.testbit (named_kinds (admitted_rows (filter (fun row => dr_inst row =? iid) rows) (is_mode s) (sig_refs T s)) q) p = true \/
+  systematic_kind (fst ref) (N.shiftl 1 p) = true \/ quad_in (iid, N.of_nat j, N.of_nat q, N.shiftl 1 p) exc = true.
+Proof.
+  intros T rows exc H iid iflags avx sidx scnt R ROW j s E q ref Eq p Hp TB TO.
+  unfold kinds_have_origin in H.
+  pose proof (forallb_In _ _ _ H iid ltac:(apply in_nseq_v; lia)) as Q. cbv beta in Q. rewrite ROW in Q. cbv zeta in Q.
+  pose proof (forallbi_nth _ _ _ _ Q j s E) as Q2. cbv beta in Q2. replace (0 + N.of_nat j) with (N.of_nat j) in Q2 by lia.
+  pose proof (forallbi_nth _ _ _ _ Q2 q ref Eq) as Q3. cbv beta in Q3. replace (0 + N.of_nat q) with (N.of_nat q) in Q3 by lia.
+  rewrite Nat2N.id in Q3.
+  set (named := named_kinds _ q) in *.
+  destruct (N.testbit named p) eqn:NM; [left; reflexivity|right].
+  assert (X : N.testbit (N.ldiff (N.land (fst ref) OF_OpMask) named) p = true).
+  { rewrite N.ldiff_spec, N.land_spec, TB, TO, NM. reflexivity. }
+  destruct (N.ldiff (N.land (fst ref) OF_OpMask) named =? 0) eqn:Z.
+  - apply N.eqb_eq in Z. rewrite Z in X. rewrite N.bits_0 in X. discriminate.
+  - pose proof (forallb_In _ _ _ Q3 p ltac:(apply in_nseq_v; cbn; lia)) as Q4. cbv beta in Q4. rewrite X in Q4.
+    destruct (systematic_kind (fst ref) (N.shiftl 1 p)); [left; reflexivity|right; exact Q4].
+Qed.
+
+(* ------------------------------------------------------------------ assembling an acceptance from the stages (converse of validate_ok_inv) *)
+Lemma validate_stages_ok : forall T zq x64 virt inst ops iflags avx sidx scnt st rest,
+  vi_id inst < vt_count T ->
+  nth (N.to_nat (vi_id inst)) (vt_inst T) (0, 0, 0, 0) = (iflags, avx, sidx, scnt) ->
+  lock_stage (vi_options inst) iflags (first_is_mem ops) = E_Ok ->
+  rep_stage (vi_options inst) iflags = E_Ok ->
+  xlat_all T x64 virt avx ops init_xstate = inr (st, rest) ->
+  forallb is_none rest = true ->
+  mode_stage x64 (vi_options inst) st = E_Ok ->
+  sig_stage T zq x64 st sidx scnt = E_Ok ->
+  evex_stage (vi_options inst) iflags = E_Ok ->
+  avx_stage (vi_options inst) iflags avx (match xs_mem st with Some _ => true | None => false end) (first_is_mem ops) ops = E_Ok ->
+  extra_stage inst iflags avx st = E_Ok ->
+  validate T zq x64 virt inst ops = E_Ok.
+Proof.
+  intros T zq x64 virt inst ops iflags avx sidx scnt st rest C ROW L R X G M S E A EX.
+  unfold validate. cbv zeta. apply N.leb_gt in C. rewrite C, ROW, L, R, X, G, M, S, E, A. cbn [negb N.eqb E_Ok]. exact EX.
+Qed.
+
+(* stage lemmas: what the decorations of a database form need from the instruction's flags *)
+Lemma test_0_l : forall x, test 0 x = false.
+Proof. intros. unfold test. rewrite N.land_0_l. reflexivity. Qed.
+
+Lemma lock_stage_plain : forall iflags m, lock_stage 0 iflags m = E_Ok.
+Proof. intros. unfold lock_stage. rewrite test_0_l. reflexivity. Qed.
+Lemma rep_stage_plain : forall iflags, rep_stage 0 iflags = E_Ok.
+Proof. intros. unfold rep_stage. rewrite test_0_l. reflexivity. Qed.
+Lemma evex_stage_plain : forall iflags, evex_stage 0 iflags = E_Ok.
+Proof. intros. unfold evex_stage. rewrite test_0_l. reflexivity. Qed.
+Lemma avx_stage_plain : forall iflags avx a b ops, avx_stage 0 iflags avx a b ops = E_Ok.
+Proof. intros. unfold avx_stage. rewrite test_0_l. reflexivity. Qed.
+Lemma extra_stage_none : forall inst iflags avx st, vi_extra_type inst = 0 -> extra_stage inst iflags avx st = E_Ok.
+Proof. intros. unfold extra_stage. rewrite H. reflexivity. Qed.
+
+(* lock prefix alone: the instruction is lockable and the first operand is memory *)
+Lemma lock_stage_lock : forall iflags, test iflags IF_Lock = true -> lock_stage OPT_Lock iflags true = E_Ok.
+Proof. intros iflags H. unfold lock_stage. rewrite H. vm_compute. reflexivity. Qed.
+
+Lemma rep_stage_rep : forall iflags o, (o = OPT_Rep \/ o = OPT_Repne) -> test iflags IF_Rep = true -> rep_stage o iflags = E_Ok.
+Proof. intros iflags o [-> | ->] H; unfold rep_stage; rewrite H; vm_compute; reflexivity. Qed.
+
+(* {k}: an EVEX instruction with the K flag, mask register k1..k7, no rep prefix *)
+Lemma extra_stage_k : forall inst iflags avx st,
+  test (vi_options inst) kRepAny = false -> test iflags IF_Evex = true -> test avx AF_K = true ->
+  vi_extra_type inst = RT_Mask -> 1 <= vi_extra_id inst <= 7 ->
+  extra_stage inst iflags avx st = E_Ok.
+Proof.
+  intros inst iflags avx st NR EV K TY ID. unfold extra_stage. cbv zeta. rewrite TY, NR, EV, K.
+  assert (A : (vi_extra_id inst =? 0) = false) by (apply N.eqb_neq; lia).
+  assert (B : (7 <? vi_extra_id inst) = false) by (apply N.ltb_ge; lia).
+  rewrite A, B. vm_compute. reflexivity.
+Qed.
+
+(* {z} {er} {sae}: general sufficient condition *)
+Lemma avx_stage_ok : forall options iflags avx has_mem op0m ops,
+  test iflags IF_Evex = true ->
+  (test options OPT_ZMask = true -> test avx AF_Z = true /\ op0m = false) ->
+  (test options (N.lor OPT_SAE OPT_ER) = true ->
+     has_mem = false /\ (test options OPT_ER = true -> test avx AF_ER = true) /\ (test options OPT_ER = false -> test avx AF_SAE = true) /\
+     (test avx (N.lor AF_B16 (N.lor AF_B32 AF_B64)) = true -> is_zmm_or_m512 (nth 0 ops ONone) || is_zmm_or_m512 (nth 1 ops ONone) = true)) ->
+  avx_stage options iflags avx has_mem op0m ops = E_Ok.
+Proof.
+  intros options iflags avx has_mem op0m ops EV Z R. unfold avx_stage.
+  destruct (test options kAvx512); cbn [negb]; [|reflexivity]. rewrite EV.
+  destruct (test options OPT_ZMask) eqn:TZ.
+  - destruct (Z eq_refl) as [Z1 Z2]. rewrite Z1, Z2. cbn [negb andb].
+    destruct (test options (N.lor OPT_SAE OPT_ER)) eqn:TR; [|reflexivity].
+    destruct (R eq_refl) as (R1 & R2 & R3 & R4). rewrite R1.
+    destruct (test options OPT_ER) eqn:TE.
+    + rewrite (R2 eq_refl). cbn [negb andb].
+      destruct (test avx (N.lor AF_B16 (N.lor AF_B32 AF_B64))) eqn:TB; [|reflexivity].
+      specialize (R4 eq_refl). apply orb_true_iff in R4. destruct R4 as [R4|R4]; rewrite R4; cbn; try reflexivity.
+      destruct (is_zmm_or_m512 (nth 0 ops ONone)); reflexivity.
+    + rewrite (R3 eq_refl). cbn [negb andb].
+      destruct (test avx (N.lor AF_B16 (N.lor AF_B32 AF_B64))) eqn:TB; [|reflexivity].
+      specialize (R4 eq_refl). apply orb_true_iff in R4. destruct R4 as [R4|R4]; rewrite R4; cbn; try reflexivity.
+      destruct (is_zmm_or_m512 (nth 0 ops ONone)); reflexivity.
+  - cbn [andb].
+    destruct (test options (N.lor OPT_SAE OPT_ER)) eqn:TR; [|reflexivity].
+    destruct (R eq_refl) as (R1 & R2 & R3 & R4). rewrite R1.
+    destruct (test options OPT_ER) eqn:TE.
+    + rewrite (R2 eq_refl). cbn [negb andb].
+      destruct (test avx (N.lor AF_B16 (N.lor AF_B32 AF_B64))) eqn:TB; [|reflexivity].
+      specialize (R4 eq_refl). apply orb_true_iff in R4. destruct R4 as [R4|R4]; rewrite R4; cbn; try reflexivity.
+      destruct (is_zmm_or_m512 (nth 0 ops ONone)); reflexivity.
+    + rewrite (R3 eq_refl). cbn [negb andb].
+      destruct (test avx (N.lor AF_B16 (N.lor AF_B32 AF_B64))) eqn:TB; [|reflexivity].
+      specialize (R4 eq_refl). apply orb_true_iff in R4. destruct R4 as [R4|R4]; rewrite R4; cbn; try reflexivity.
+      destruct (is_zmm_or_m512 (nth 0 ops ONone)); reflexivity.
+Qed.
+
+(* the row-level acceptance theorem: a contained database row + operands that translate and fit + stages of the decorations => validate accepts *)
+Lemma db_row_validates : forall T zq x64 virt row inst ops iflags avx sidx scnt st rest,
+  forallb (sig_wf T) (vt_isig T) = true ->
+  row_present T row = true ->
+  vi_id inst = dr_inst row ->
+  nth (N.to_nat (dr_inst row)) (vt_inst T) (0, 0, 0, 0) = (iflags, avx, sidx, scnt) ->
+  test (dr_mode row) (mode_bit x64) = true ->
+  xlat_all T x64 virt avx ops init_xstate = inr (st, rest) ->
+  forallb is_none rest = true ->
+  fits_all (explicit_ops (dr_ops row)) (xs_sigs st) = true ->
+  lock_stage (vi_options inst) iflags (first_is_mem ops) = E_Ok ->
+  rep_stage (vi_options inst) iflags = E_Ok ->
+  mode_stage x64 (vi_options inst) st = E_Ok ->
+  evex_stage (vi_options inst) iflags = E_Ok ->
+  avx_stage (vi_options inst) iflags avx (match xs_mem st with Some _ => true | None => false end) (first_is_mem ops) ops = E_Ok ->
+  extra_stage inst iflags avx st = E_Ok ->
+  validate T zq x64 virt inst ops = E_Ok.
+Proof.
+  intros T zq x64 virt row inst ops iflags avx sidx scnt st rest WF P ID ROW M X G F L R MD E A EX.
+  assert (C : vi_id inst < vt_count T).
+  { unfold row_present in P. rewrite ROW in P. apply andb_true_iff in P. destruct P as [P _]. apply N.ltb_lt in P. lia. }
+  eapply validate_stages_ok; eauto.
+  - rewrite ID. exact ROW.
+  - unfold sig_stage. destruct (scnt =? 0); [reflexivity|].
+    change (if x64 then MODE_X64 else MODE_X86) with (mode_bit x64).
+    eapply row_present_signature_stage; eauto.
 Qed.
